@@ -207,6 +207,12 @@ Proof.
   - rewrite forallb_forall in *. intros x Hx. apply H. apply in_rev. exact Hx.
 Qed.
 
+Lemma filter_id (A : Type) (p : A -> bool) l : forallb p l = true -> filter p l = l.
+Proof.
+  induction l as [|c l IH]; cbn [forallb filter]; [reflexivity|]. intro H. apply andb_true_iff in H as [H1 H2].
+  rewrite H1, (IH H2). reflexivity.
+Qed.
+
 Lemma octdigit_not_blank c : is_octdigit c = true -> is_blank c = false.
 Proof.
   intro H. apply mem_In in H. unfold tk_OCTDIGITS in H. simpl in H.
@@ -418,7 +424,7 @@ Proof.
   rewrite span_app; [|apply (forallb_impl _ is_octdigit); [intros x Hx; rewrite Hx; reflexivity|exact H1]|exact Hf].
   assert (Hnb : forallb (fun c => negb (is_blank c)) (oct_str v) = true).
   { apply (forallb_impl _ is_octdigit); [|exact H1]. intros x Hx. rewrite (octdigit_not_blank x Hx). reflexivity. }
-  rewrite strip_blanks_id by exact Hnb. rewrite (existsb_false _ is_blank) by exact Hnb. rewrite H3.
+  rewrite filter_id by exact Hnb. rewrite H3.
   replace (v <=? 65535) with true by (symmetry; apply Z.leb_le; lia). reflexivity.
 Qed.
 
